@@ -9,6 +9,7 @@ from fractions import Fraction
 import common as C
 import engine
 import impl
+import metam
 import modelio as M
 import popgen
 
@@ -240,6 +241,14 @@ def u2(ctx, res):
                 info["reference"] = [str(x) for x in ref]
             except Exception:  # noqa: BLE001
                 pass
+        if c["op"] == "sum_by_p_id" and c["impl"][0] == "ok" and all(p < 0 or p in c["pids"] for p in c["ptr"]):
+            want = [sum((Fraction(repr(v)) if isinstance(v, float) else int(v)) for v, p in zip(c["vals"], c["ptr"]) if p == pid) for pid in c["pids"]]
+            bad_impl = not all((M.close(float(a), Fraction(b)) if isinstance(a, float) else int(a) == int(b)) for a, b in zip(c["impl"][2], want))
+            info["reference"] = [str(x) for x in want]
+        if c["op"] == "join" and c["impl"][0] == "ok" and len(set(c["pk"])) == len(c["pk"]):
+            want = [c["vals"][c["pk"].index(k)] if k in c["pk"] else -99 for k in c["fk"]]
+            bad_impl = list(c["impl"][2]) != want
+            info["reference"] = want
         if bad_impl:
             stats["refuted_by_reference"] += 1
         if len([v for v in res.violations if v["key"].startswith("u2:")]) < 5:
@@ -274,6 +283,43 @@ def t4_loader(ctx, res):
             n += 1
             if not all(M.close(float(a), Fraction(repr(float(b)))) for a, b in zip(out[tgt], want)):
                 bad.append(dict(kind="automatic group sum is not the sum over the group", target=tgt))
+        # (a2) EVERY built-in group aggregation specification (explicit specs take precedence over automatic sums)
+        rules_cfg = ctx.load_rules()["config"]["aggregate_by_group"]
+        d = metam.dag_for(o)
+        live = set(d["order"])
+        todo = []
+        for agg, spec in rules_cfg.items():
+            grp = next((g for g in ["hh", "wthh", "fg", "bg", "eg", "ehe", "sn"] if agg.endswith("_" + g)), None)
+            src = spec.get("source_col")
+            if grp is None or agg not in live or (src is not None and src not in live and src not in df.columns):
+                continue
+            todo.append((agg, spec["aggr"], src, grp))
+        tg = sorted({a for a, _, _, _ in todo} | {s_ for _, _, s_, _ in todo if s_ and s_ not in df.columns} | {f"{g}_id" for _, _, _, g in todo if g != "hh"})
+        try:
+            allout, _ = engine.simulate(df, o, targets=tg)
+        except Exception as ex:  # noqa: BLE001
+            allout = None
+            res.extra.setdefault("t4_skipped", []).append(f"{type(ex).__name__}: {str(ex)[:120]}")
+        if allout is not None:
+            for agg, aggr, src, grp in todo:
+                ids = df["hh_id"].to_numpy() if grp == "hh" else allout[f"{grp}_id"].to_numpy()
+                col = None if src is None else (df[src] if src in df.columns else allout[src])
+                import pandas as pd
+
+                if aggr == "count":
+                    want = pd.Series(1, index=range(len(df))).groupby(ids).transform("sum").to_numpy()
+                else:
+                    sv = pd.Series(col.to_numpy())
+                    sv = sv.astype(int) if sv.dtype == bool and aggr == "sum" else sv
+                    want = sv.groupby(ids).transform({"sum": "sum", "mean": "mean", "max": "max", "min": "min", "any": "any", "all": "all"}[aggr]).to_numpy()
+                got = allout[agg].to_numpy()
+                n += 1
+                ok = all((bool(a) == bool(b)) if aggr in ("any", "all") else M.close(float(a), Fraction(repr(float(b)))) for a, b in zip(got, want))
+                if ok and aggr in ("any", "all") and got.dtype != bool:
+                    ok = False
+                if not ok:
+                    bad.append(dict(kind=f"built-in specification ({aggr} of {src}) is not what the column holds", target=agg,
+                                    got=[metam._py(v) for v in got[:8]], expected=[metam._py(v) for v in want[:8]], dtype=str(got.dtype)))
         # (b) explicit user spec is used
         spec = {"bruttolohn_m_hh": {"source_col": "bruttolohn_m", "aggr": "max"}}
         out, _ = engine.simulate(df, o, targets=["bruttolohn_m_hh"], aggregate_by_group_specs=spec)
